@@ -5,6 +5,7 @@ brute-force geometric oracle; searchlight RDMs on both sides of the chunking lim
 computation.  C: evaluate_models_searchlight under EVERY completion order of the queued joblib
 tasks (virtual backend, mc/vjoblib.py) for n_jobs in {1,2,3}.
 """
+import copy
 import itertools
 import math
 
@@ -17,7 +18,9 @@ PROPERTY = 'C19'
 LEVEL = 'model_checking'
 RULE = ('(a) every binary mask of every volume shape with <= 8 (thorough 12) voxels and structured masks of 4x4x4 / '
         '5x5x5, x radius in {1,1.5,2,2.5,3} x threshold in {0.5,0.75,1} x every centre, real '
-        'get_volume_searchlight / _get_searchlight_neighbors against brute force; (b) get_searchlight_RDMs for '
+        'get_volume_searchlight / _get_searchlight_neighbors against brute force, every mask also Fortran-ordered, as a '
+        'strided view, as uint8 / float 0-1 array and as nested list (indices must address the C-order flattened '
+        'volume); (b) get_searchlight_RDMs for '
         'n_centres in {1,5,999,1000,1001,1100} x methods x event vectors; (c) evaluate_models_searchlight on 1-4 '
         '(thorough 5) centres under every completion order of the virtual joblib backend for n_jobs in {1,2,3} '
         '(states/transitions = nodes/edges of the schedule tree). One evaluation = one judged library call; '
@@ -100,10 +103,33 @@ def lin(shape, v):
     return (v[0] * shape[1] + v[1]) * shape[2] + v[2]
 
 
-def judge_volume(ctx, case, mask, radius, threshold):
+LAYOUTS = ['fortran', 'strided-view', 'uint8', 'float01', 'nested-list']
+
+
+def _as_layout(mask, layout):
+    """the same binary mask as the caller may hold it: Fortran-ordered (what NIfTI readers return), a strided
+    view into a larger array, other dtypes, a nested list. The returned linear indices address the C-order
+    flattened volume (the columns of data.reshape(n_obs, -1)) whatever the memory layout."""
+    if layout == 'fortran':
+        return np.asfortranarray(mask)
+    if layout == 'strided-view':
+        big = np.zeros(tuple(2 * s + 1 for s in mask.shape), dtype=mask.dtype)
+        big[1::2, 1::2, 1::2] = mask
+        return big[1::2, 1::2, 1::2]
+    if layout == 'uint8':
+        return mask.astype(np.uint8)
+    if layout == 'float01':
+        return np.asfortranarray(mask.astype(float))
+    if layout == 'nested-list':
+        return mask.astype(int).tolist()
+    return mask
+
+
+def judge_volume(ctx, case, mask, radius, threshold, layout=None):
     from rsatoolbox.util.searchlight import get_volume_searchlight
     shape = mask.shape
-    sig = 'get_volume_searchlight'
+    sig = 'get_volume_searchlight' + ('|layout=%s' % layout if layout else '')
+    given = _as_layout(mask, layout)
     want_centers, want_nb = [], []
     for c in zip(*np.nonzero(mask)):
         c = tuple(int(v) for v in c)
@@ -114,9 +140,13 @@ def judge_volume(ctx, case, mask, radius, threshold):
             want_nb.append(sorted(lin(shape, v) for v in nb))
     klass = 'no-centre-qualifies' if not want_centers else 'some-centres'
     with ctx.guard('%s|%s' % (sig, klass), case):
-        mask_before = mask.copy()
-        centers, neighbors = get_volume_searchlight(mask, radius=radius, threshold=threshold)
-        if not np.array_equal(mask, mask_before) or mask.dtype != mask_before.dtype:
+        mask_before = copy.deepcopy(given)
+        centers, neighbors = get_volume_searchlight(given, radius=radius, threshold=threshold)
+        if isinstance(given, list):
+            changed = given != mask_before
+        else:
+            changed = not np.array_equal(given, mask_before) or given.dtype != mask_before.dtype
+        if changed:
             ctx.fail(sig + '|modifies-argument', case, 'the mask was changed by the call')
         centers = [int(v) for v in np.asarray(centers).ravel()]
         if centers != want_centers:
@@ -335,8 +365,22 @@ def run_case(case, ctx):
                            'radius': radius, 'threshold': th}
                     if 'radius' in case and (case['radius'], case['threshold']) != (radius, th):
                         continue
+                    if 'layout' in case:
+                        continue
                     ctx.case(sub, nontrivial=k > 0)
                     judge_volume(ctx, sub, mask, radius, th)
+            # the same mask in the other memory layouts / containers a caller may hold it in: one (radius,
+            # threshold) pair per layout, rotating with the mask number so that every pair meets every layout
+            for j, layout in enumerate(LAYOUTS):
+                radius, th = RADII[(k + j) % len(RADII)], THRESH[(k + 2 * j) % len(THRESH)]
+                if 'layout' in case and case['layout'] != layout:
+                    continue
+                if 'radius' in case and 'layout' not in case:
+                    continue
+                sub = {'kind': 'masks', 'shape': list(shape), 'range': [k, k + 1], 'mask_index': k,
+                       'radius': radius, 'threshold': th, 'layout': layout}
+                ctx.case(sub, nontrivial=k > 0)
+                judge_volume(ctx, sub, mask, radius, th, layout)
         if lo == 0:
             for radius in RADII:
                 sub = {'kind': 'masks', 'shape': list(shape), 'range': [0, 1], 'helper': True, 'radius': radius}
@@ -346,9 +390,17 @@ def run_case(case, ctx):
         mask = _structured(case['size'], case['struct'])
         for radius in RADII:
             for th in THRESH:
+                if 'layout' in case:
+                    if (case['radius'], case['threshold']) == (radius, th):
+                        judge_volume(ctx, case, mask, radius, th, case['layout'])
+                    continue
                 sub = dict(case, radius=radius, threshold=th)
                 ctx.case(sub)
                 judge_volume(ctx, sub, mask, radius, th)
+                for layout in LAYOUTS:
+                    subl = dict(sub, layout=layout)
+                    ctx.case(subl)
+                    judge_volume(ctx, subl, mask, radius, th, layout)
         if case['struct'] == 'full':
             for radius in RADII:
                 judge_neighbors_all(ctx, dict(case, helper=True, radius=radius), mask.shape, radius)
